@@ -322,15 +322,22 @@ def gen_ops(ctx, mode, depth, num=None, seed=0):
 
 
 def shrink_key(clause, case, pos):
-    """Normal form: failing clause + the kinds of facets involved up to the failing step (classes abstracted)."""
-    whats = []
+    """Normal form: failing clause + the operation after which it failed (node classes and history abstracted;
+    for exit/raise the kinds of the contexts that were closed)."""
+    stack = []
+    what = ''
     for e in case['steps'][:pos]:
-        if e['op'] in ('attach', 'enter', 'detach'):
-            w = e['what'] if e['what'] != 'pragmas' else 'pragmas'
-            tag = f"{e['op']}-{w}"
-            if tag not in whats:
-                whats.append(tag)
-    return f"{clause}:{'+'.join(sorted(whats))}"
+        if e['op'] == 'enter':
+            stack.append(e['what'])
+            what = e['what']
+        elif e['op'] == 'exit':
+            what = stack.pop() if stack else '?'
+        elif e['op'] == 'raise':
+            closed = [stack.pop() for _ in range(min(e['n'], len(stack)))]
+            what = '+'.join(sorted(set(closed)))
+        else:
+            what = e['what']
+    return f"{clause}:{case['steps'][pos - 1]['op']}-{what}"
 
 
 def run(ctx):
